@@ -533,3 +533,47 @@ Proof.
   unfold slow_inv. cbn. auto 10.
 Qed.
 
+
+(* ------------------------------------------------------------------------------------- *)
+(* event-stream Patron: once the timer duration IS the retry value (i.e. from the first
+   reconnect on, or when timeout = retry) it behaves exactly like the plain Patron, so every
+   theorem about Patron applies with duration = retry *)
+Lemma patron_ev_eq orc lname pname r c : tdur c = r ->
+  patron_ev_service orc lname pname r c = Model.patron_service orc lname pname c.
+Proof.
+  intros H. unfold patron_ev_service, Model.patron_service, Model.cutoff_branch.
+  destruct (cutoff c && reconn c && timed_out c); [|reflexivity].
+  assert (E : set_dur (restart (reopen c)) r = restart (reopen c)).
+  { destruct c as [cs0 ? ? ? ? ? ? ? ? ? ? ? ? ? ?]. cbv [Model.tdur] in H. subst.
+    destruct cs0; reflexivity. }
+  rewrite E. reflexivity.
+Qed.
+
+Lemma run_ev_eq orc lname pname r ts : forall c,
+  Forall (fun t : tick => 0 <= fst t) ts -> tstart c <= now c -> tdur c = r ->
+  run_ev orc lname pname r c ts = run orc lname pname Patron c ts.
+Proof.
+  induction ts as [|t ts IH]; intros c Hf Hw Hd; [reflexivity|].
+  inversion Hf; subst. cbn [run_ev Model.run fold_left].
+  assert (E : step_ev orc lname pname (tdur c) c t = step orc lname pname Patron c t).
+  { unfold step_ev, Model.step. cbv zeta. cbn [Model.service]. apply patron_ev_eq.
+    destruct c as [cs0 ? ? ? acc cu ? ? ? ? ? ? ? ? ?].
+    destruct (snd t); [destruct acc, cu|]; prims; reflexivity. }
+  rewrite E. destruct (keep_step orc lname pname Patron c t H1 Hw) as ((_ & _ & K) & W).
+  apply IH; auto; congruence.
+Qed.
+
+Lemma paced_nonneg ts dmin dmax : 0 < dmin -> paced ts dmin dmax -> Forall (fun t : tick => 0 <= fst t) ts.
+Proof. unfold paced. intros H0 H. eapply Forall_impl; [|exact H]. cbn. intros t ((A & _) & _). lia. Qed.
+
+Lemma reconnect_bounded_ev_lem :
+  forall orc lname pname (c : client) (ts : list tick) (lag n : nat) (dmin dmax r : Z),
+    reconn c = true -> 0 < timeout c -> tstart c <= now c -> tdur c = r ->
+    0 < dmin -> dmin <= dmax -> (Z.of_nat lag + 1) * dmax < r -> r <= Z.of_nat n * dmin ->
+    listening orc (nsock c) lag -> no_raise orc -> paced ts dmin dmax -> (n + lag + 1 <= length ts)%nat ->
+    let c' := run_ev orc lname pname r c ts in accepted c' = true /\ cutoff c' = false.
+Proof.
+  intros orc lname pname c ts lag n dmin dmax r Hr Ht Hs Hd H0 H1 HD Hn HL HR Hp Hl. cbv zeta.
+  rewrite (run_ev_eq orc lname pname r ts c (paced_nonneg ts dmin dmax H0 Hp) Hs Hd).
+  apply (reconnect_bounded_thm orc lname pname Patron c ts lag n dmin dmax); auto; rewrite Hd; auto.
+Qed.
